@@ -85,7 +85,8 @@ RULE = ("random networks of 2-4 fermionic tensors (chains, triangles, stars; wit
         "signs; 4 random routes per network differing in contraction order, operand order, axis listing order, "
         "pre-transposition of operands and one-at-a-time contraction (partial tensordot + einsum trace); results "
         "brought to one leg order by fermionic transpose and compared with each other (real code) and with the Lean "
-        "model, labels included. non-trivial: >= 1 odd tensor and >= 2 distinct routes")
+        "model, labels included. non-trivial: >= 1 odd tensor and >= 2 distinct routes"
+        '; doubled <psi|psi> networks (each tensor and its conjugate) with forced ket-half.bra-half and bra-half.ket-half routes; fully contracted results must carry no labels')
 ANCHORS = {"fermionic_core.py": ["tensordot_fermionic", "resolve_combined_oddpos", "transpose", "einsum",
                                  "phase_flip", "phase_transpose"],
            "fermionic_local_operators.py": ["FermionicOperator"],
